@@ -138,11 +138,20 @@ class CSSParser(object):
         :returns:
             :class:`~css_parser.css.CSSStyleSheet`.
         """
+        return self.__parse(cssText, encoding, None, href, media, title,
+                            validate)
+
+    def __parse(self, cssText, encodingOverride, encoding, href, media,
+                title, validate):
+        """parseString; `encoding` (if no `encodingOverride` is given) is the
+        encoding the text was found to have: the sheet's own encoding and what
+        its imports fall back to, but no override for them"""
         self.__parseSetting(True)
         try:
             # TODO: py3 needs bytes here!
             if isinstance(cssText, bytes):
-                cssText = codecs.getdecoder('css')(cssText, encoding=encoding)[0]
+                cssText = codecs.getdecoder('css')(
+                    cssText, encoding=encodingOverride)[0]
 
             if validate is None:
                 validate = self._validate
@@ -156,7 +165,8 @@ class CSSParser(object):
             # tokenizing this ways closes open constructs and adds EOF
             sheet._setCssTextWithEncodingOverride(self.__tokenizer.tokenize(cssText,
                                                                             fullsheet=True),
-                                                  encodingOverride=encoding)
+                                                  encodingOverride=encodingOverride,
+                                                  encoding=encoding)
         finally:
             # also if decoding, a fetcher or parsing raised
             self.__parseSetting(False)
@@ -215,14 +225,19 @@ class CSSParser(object):
                 href,
                 fetcher=self.__fetcher,
                 overrideEncoding=encoding)
-        if enctype == 5:
-            # do not use if defaulting to UTF-8
-            encoding = None
-
-        if text is not None:
+        if text is None:
+            return None
+        if enctype == 0:
+            # given by the caller: overrides, also for imported sheets
             return self.parseString(text, encoding=encoding,
                                     href=href, media=media, title=title,
                                     validate=validate)
+        if enctype == 5:
+            # do not use if defaulting to UTF-8
+            encoding = None
+        # found via HTTP, BOM or @charset: the encoding of this sheet, which
+        # an imported sheet without information of its own falls back to
+        return self.__parse(text, None, encoding, href, media, title, validate)
 
     def setFetcher(self, fetcher=None):
         """Replace the default URL fetch function with a custom one.
